@@ -20,10 +20,11 @@ from collections import deque
 
 from harness import tlc
 
-ALL_DEV = ["D1_late_pool", "D2_discount_pool", "D3_ctl_after_shutdown", "D4_recon_removed"]
-DEV_OWNER = {"D1_late_pool": "C45", "D3_ctl_after_shutdown": "C45", "D2_discount_pool": "C25", "D4_recon_removed": "C25"}
+ALL_DEV = ["D1_late_pool", "D2_discount_pool", "D3_ctl_after_shutdown", "D4_recon_removed", "D5_up_loop"]
+DEV_OWNER = {"D1_late_pool": "C45", "D3_ctl_after_shutdown": "C45", "D2_discount_pool": "C25", "D4_recon_removed": "C25", "D5_up_loop": "C25"}
 DEV_BREAKS = {"D1_late_pool": ["AllClosed", "Refused"], "D2_discount_pool": ["UpHasPools"],
-              "D3_ctl_after_shutdown": ["AllClosed"], "D4_recon_removed": ["RemovedNotReconnected"]}
+              "D3_ctl_after_shutdown": ["AllClosed"], "D4_recon_removed": ["RemovedNotReconnected"],
+              "D5_up_loop": ["NotifiedOnce"]}
 DEV_WHAT = {
     "D1_late_pool": "run_add_or_renew_pool executed after Session.shutdown() installs a new open pool in the shut-down "
                     "session: its connection is never closed and execute_async after shutdown is sent instead of refused",
@@ -31,6 +32,9 @@ DEV_WHAT = {
                         "discounts the failure because another session is still connected: host marked up, session without pool",
     "D3_ctl_after_shutdown": "ControlConnection._set_new_connection installs (and never closes) the connection of a reconnect "
                              "that was in progress when Cluster.shutdown() closed the control connection",
+    "D5_up_loop": "with two sessions Cluster.on_up attaches _on_up_future_completed to the first pool future before the second is "
+                  "in `futures`: when the first pool is ready before the loop goes on, the host is marked up and every listener "
+                  "gets on_up, and again when the second pool is ready (two notifications for one down->up transition)",
     "D4_recon_removed": "Cluster._start_reconnector starts a reconnector for a host that was already removed from the metadata "
                         "(on_down queued by a failed pool creation, or a failed on_up, finishing after on_remove)",
 }
@@ -43,19 +47,20 @@ ACTIONS = ("Exec", "Fire", "ConnFailure", "StatusEvent", "TopologyEvent", "SetMo
            "ShutdownE", "Request")
 
 
-def C(hosts, known0, sessions=(1,), ignored=(), events=2, env=()):
+def C(hosts, known0, sessions=(1,), ignored=(), events=2, env=(), fine=False):
     return {"Hosts": set(hosts), "Known0": set(known0), "Sessions": set(sessions), "Ignored": set(ignored),
-            "MaxEvents": events, "Env": set(env)}
+            "MaxEvents": events, "Env": set(env), "FineUp": fine}
 
 
 def configs(pid, quick):
     if pid == "C25":
         if quick:
-            return [("2hosts", C({2, 3}, {2}, events=2, env={"fail", "mode", "topo"}))]      # status events: recorded runs, thorough tier
+            return [("2hosts", C({2, 3}, {2}, events=2, env={"fail", "status", "mode", "topo"}))]
         return [("1host", C({2}, {2}, events=3, env={"fail", "status", "mode", "auth"})),
                 ("topology", C({2, 3}, {2}, events=3, env={"topo", "mode", "fail"})),
                 ("2sessions", C({2}, {2}, sessions={1, 2}, events=2, env={"fail", "status", "mode"})),
-                ("ignored", C({2, 3}, {2, 3}, ignored={3}, events=2, env={"fail", "status", "mode"}))]
+                ("ignored", C({2, 3}, {2, 3}, ignored={3}, events=2, env={"fail", "status", "mode"})),
+                ("2sessions-fine", C({2}, {2}, sessions={1, 2}, events=1, env={"fail", "status", "mode"}, fine=True))]
     if quick:
         return [("ctl", C({2}, {2}, events=2, env={"fail", "mode", "ctl", "status"}))]
     return [("ctl", C({2}, {2}, events=3, env={"fail", "mode", "ctl", "status"})),
@@ -83,6 +88,7 @@ def probes():
         return A("Fire", task_dict(T(*t, **k)))
     one = C({2}, {2}, events=9, env={"fail", "status", "mode", "topo", "ctl"})
     two = C({2}, {2}, sessions={1, 2}, events=9, env={"fail", "status", "mode"})
+    fine = dict(two, FineUp=True)
     return {
         "D1_late_pool": (one, [
             X("AddPool", s=1, h=2, kind="init"), A("ConnFailure", s=1, h=2), X("OnDown", h=2),
@@ -97,6 +103,12 @@ def probes():
             X("AddPool", s=1, h=2, kind="init"), A("CtlFail"), X("CtlReconnect"), A("ShutdownA"), X("CtlSet"),
             A("ShutdownS"), A("ShutdownE")],
             lambda p, bad: bool(bad.get("connections_still_open"))),
+        "D5_up_loop": (fine, [
+            X("AddPool", s=2, h=2, kind="init"), A("ConnFailure", s=1, h=2), A("ConnFailure", s=2, h=2),
+            X("OnDown", h=2), X("OnDown", h=2), X("PoolShut", s=1, h=2, f2=True), X("PoolShut", s=2, h=2, f2=True),
+            F("Recon", h=2, kind="att"), X("Recon", h=2, kind="att"), X("AddPool", s=1, h=2, kind="up"),
+            X("OnUpCont", h=2, f1=True), X("AddPool", s=2, h=2, kind="up")],
+            lambda p, bad: p["_listener_log"].count(("up", 2)) >= 2),
         "D4_recon_removed": (one, [
             A("SetMode", h=2, x="refuse"), X("AddPool", s=1, h=2, kind="init"), A("TopologyEvent", h=2, x="REMOVED_NODE"),
             F("RemoveHost", h=2), X("RemoveHost", h=2), X("OnDown", h=2, f2=True)],
@@ -116,6 +128,7 @@ def run_probes(ctx):
         if pred(p, bad):
             present.append(dev)
             detail[dev] = {"final": {k: rh._show(p[k]) for k in ("up", "recon", "pools", "known", "removed", "nopen")},
+                           "listener_notifications": [list(x) for x in p["_listener_log"]],
                            "after_return": bad}
         else:
             detail[dev] = "not exhibited"
@@ -239,7 +252,7 @@ def run(ctx, pid):
 
     # ---- 4a. meanwhile: record random runs of the real objects
     tconsts = dict(C({2, 3}, {2}, sessions={1, 2} if pid == "C25" and not quick else {1}, events=6,
-                     env={"fail", "status", "mode", "topo", "auth", "ctl"}), Fixed=fixed_built)
+                     env={"fail", "status", "mode", "topo", "auth", "ctl"}, fine=(pid == "C25" and not quick)), Fixed=fixed_built)
     n_tr = 150 if quick else 1000
     t0 = time.time()
     traces, after_bad = [], []
@@ -517,5 +530,6 @@ def replay(ctx, pid, obj):
 
 
 def _state_line(p):
+    p = dict(p)
     from harness.replay.hosts import _show
     return {k: _show(p[k]) for k in ("up", "recon", "handling", "known", "pools", "exec", "sched", "flags", "ctl", "nopen", "req", "emL", "emP")}
